@@ -189,14 +189,32 @@ func genC06(g *Gen, tier string, w *bufio.Writer) {
 				badRow = Pick(g, []string{"{\"b\": \"x\"}\n", "{\"a\": \"str\", \"b\": \"x\"}\n", "{\"a\": {\"z\": 1}, \"b\": \"x\"}\n", "{}\n", "{\"a\": [1], \"b\": \"x\"}\n"})
 			}
 			var sb strings.Builder
+			nestedShape := ""
+			if g.Chance(1, 4) {
+				// the misfit sits INSIDE a list or an object (an element that is not the last one; a nested key that is absent)
+				nj = 101 + g.Intn(60)
+				bad = 100 + g.Intn(nj-100+1)
+				if g.Bool() {
+					nestedShape = "SELECT a, l FROM j.json t"
+					badRow = Pick(g, []string{"{\"a\": 1, \"b\": \"x\", \"l\": [\"oops\", 5], \"o\": {\"x\": 1, \"y\": 2}}\n", "{\"a\": 1, \"b\": \"x\", \"l\": [1, {\"z\": 1}, 5], \"o\": {\"x\": 1, \"y\": 2}}\n"})
+				} else {
+					nestedShape = "SELECT a, o FROM j.json t"
+					badRow = Pick(g, []string{"{\"a\": 1, \"b\": \"x\", \"l\": [1, 2], \"o\": {\"x\": 1}}\n", "{\"a\": 1, \"b\": \"x\", \"l\": [1, 2], \"o\": {\"x\": \"s\", \"y\": 2}}\n"})
+				}
+			}
 			for k := 0; k < nj; k++ {
 				if k == bad {
 					sb.WriteString(badRow)
+				} else if nestedShape != "" {
+					fmt.Fprintf(&sb, "{\"a\": %d, \"b\": \"x\", \"l\": [1, 2], \"o\": {\"x\": 1, \"y\": 2}}\n", k%3)
 				} else {
 					fmt.Fprintf(&sb, "{\"a\": %d, \"b\": \"x\"}\n", k%3)
 				}
 			}
 			shape := Pick(g, []string{"SELECT a FROM j.json t", "SELECT DISTINCT a FROM j.json t", "SELECT a FROM j.json t ORDER BY a", "SELECT a, COUNT(b) AS c FROM j.json t GROUP BY a"})
+			if nestedShape != "" {
+				shape = nestedShape
+			}
 			plan := "un map 0 src jsonSource " + flag01(bad < nj)
 			switch {
 			case strings.Contains(shape, "DISTINCT"):
